@@ -498,7 +498,7 @@ def ob_cir_header_w(ctx, res):
         res.fail("cirHeader/sig", fn, "signature not recognised: %s" % fn.params)
         return
     O = "p%d" % opt_p[0]
-    ok = check_emit_seq(res, fn, a, H[:3], {"magic": {"const:CIR_TREE_MAGIC"}, "blockSize": {O + ".block_size"},
+    ok = check_emit_seq(res, fn, a, H[:3], {"magic": {"const:CIR_TREE_MAGIC"}, "blockSize": {O + ".block_size", "rtree_block_size(%s)" % O},
                                              "itemCount": {"p%d" % cnt_p[0]}}, "cirHeader")
     # endFileOffset <- the tell() taken first
     first_tell = segs[0][1].node
